@@ -3,6 +3,7 @@ package main
 import (
 	"fmt"
 	"go/types"
+	"sort"
 	"strings"
 
 	"golang.org/x/tools/go/ssa"
@@ -75,8 +76,106 @@ func (u *Unit) contractFor(fn *ssa.Function) *Contract {
 	return c
 }
 
+// callsiteChecks: obligations attached by the caller's contract to its n-th call of callee.
+func (u *Unit) callsiteChecks(fr *Frame, st *State, x *ssa.Call, callee string, args []*Val, argTypes []types.Type) {
+	c := u.eng.specs.Contracts[fnName(fr.fn)]
+	if c == nil || !fr.top {
+		return
+	}
+	var cls []*Clause
+	for _, cl := range c.Clauses {
+		if cl.Kind == "callsite" && cl.Callee == callee {
+			cls = append(cls, cl)
+		}
+	}
+	if len(cls) == 0 {
+		return
+	}
+	// ordinal of this call among the calls of the same callee in the caller (block order)
+	ord := 0
+	for _, b := range fr.fn.Blocks {
+		for _, ins := range b.Instrs {
+			if cc, ok := ins.(*ssa.Call); ok && u.calleeName(cc) == callee {
+				ord++
+				if cc == x {
+					goto found
+				}
+			}
+		}
+	}
+found:
+	// environment: caller parameters, loop variables of the innermost enclosing loop, arg0..argN
+	var env *SEnv
+	ci := u.eng.cfg(fr.fn)
+	var head *ssa.BasicBlock
+	best := -1
+	for h, body := range ci.loopBody {
+		if body[x.Block().Index] && (best < 0 || len(body) < best) {
+			best = len(body)
+			head = fr.fn.Blocks[h]
+		}
+	}
+	if head != nil {
+		phiVals := map[*ssa.Phi]Term{}
+		for _, ins := range head.Instrs {
+			if phi, ok := ins.(*ssa.Phi); ok {
+				if v, ok := fr.vals[phi]; ok {
+					phiVals[phi] = v.T
+				}
+			}
+		}
+		env = u.invEnv(fr, head, st, phiVals)
+	} else {
+		env = u.contractEnv(fr.fn, fr.params, nil, st, fr.entry)
+		env.fr = fr
+	}
+	for i, a := range args {
+		if a.T.S != "" && i < len(argTypes) {
+			env.vars[fmt.Sprintf("arg%d", i)] = &SVal{T: a.T, Go: argTypes[i]}
+		}
+	}
+	for _, cl := range cls {
+		if cl.Loop != ord || !cl.visible(u.eng.prop) {
+			continue
+		}
+		cl.used = true
+		t, err := env.EvalBool(cl.Expr)
+		if err != nil {
+			u.errs = append(u.errs, fmt.Sprintf("%s callsite %s: %v", fnName(fr.fn), cl.Label, err))
+			continue
+		}
+		u.oblige(st, "callsite", fnName(fr.fn), cl.Label, u.eng.posOf(x.Pos()), t, cl.Tags)
+	}
+}
+
+// calleeName: the name callsite clauses use for a call (function RelString, or Iface.Method for invokes).
+func (u *Unit) calleeName(x *ssa.Call) string {
+	c := x.Call
+	if c.IsInvoke() {
+		n := ifaceName(c.Value.Type())
+		if i := strings.LastIndex(n, "."); i >= 0 {
+			n = n[i+1:]
+		}
+		return n + "." + c.Method.Name()
+	}
+	if f, ok := c.Value.(*ssa.Function); ok {
+		if f.Pkg == u.eng.pkg {
+			return fnName(f)
+		}
+		return f.String()
+	}
+	return ""
+}
+
 func (u *Unit) callFunction(fr *Frame, st *State, x *ssa.Call, fn *ssa.Function, bindings []*Val, args []*Val) *State {
 	name := fnName(fn)
+	if fr.top {
+		var ats []types.Type
+		for _, p := range fn.Params {
+			ats = append(ats, p.Type())
+		}
+		u.callsiteChecks(fr, st, x, u.calleeName(x), args, ats)
+	}
 	if fn.Pkg != u.eng.pkg || len(fn.Blocks) == 0 {
 		// function outside the repository
 		full := fn.String()
@@ -231,6 +330,22 @@ func (u *Unit) applyContract(fr *Frame, st *State, x *ssa.Call, fn *ssa.Function
 	for _, cl := range c.Clauses {
 		if cl.Kind != "modifies" {
 			continue
+		}
+		if cl.ModsAny {
+			// every heap component may have changed
+			all := map[string]bool{"BIG": true}
+			for _, k := range u.eng.dataComps {
+				all[k] = true
+			}
+			for k := range u.init0 {
+				if strings.HasPrefix(k, "H:") || strings.HasPrefix(k, "E:") || strings.HasPrefix(k, "M") {
+					all[k] = true
+				}
+			}
+			for _, k := range compKeys2(all) {
+				u.comp(post, k)
+				post.comps[k] = u.fresh("hv!"+k, compSort(k))
+			}
 		}
 		for _, m := range cl.Mods {
 			if err := u.havocPlace(env, post, m); err != nil {
@@ -582,6 +697,9 @@ func (u *Unit) contractMods(c *Contract, f *ssa.Function, set map[string]bool) {
 		if cl.Kind != "modifies" {
 			continue
 		}
+		if cl.ModsAny {
+			set["*"] = true
+		}
 		for _, m := range cl.Mods {
 			switch {
 			case m.Kind == "call" && m.Name == "elems":
@@ -608,3 +726,12 @@ func (u *Unit) contractMods(c *Contract, f *ssa.Function, set map[string]bool) {
 }
 
 var _ = strings.Contains
+
+func compKeys2(m map[string]bool) []string {
+	ks := make([]string, 0, len(m))
+	for k := range m {
+		ks = append(ks, k)
+	}
+	sort.Strings(ks)
+	return ks
+}
